@@ -1,5 +1,5 @@
-(* C05, positive part: state.step never REPORTS FAILURE (success=False) in any run of the middleware on instances whose
-   machine pre- and post-buffers are unordered (FLEX, the compiler's default): every transition the simulator applies -
+(* C05, positive part: state.step never REPORTS FAILURE (success=False) in any run of the middleware, for EVERY instance:
+   every transition the simulator applies -
    the agent's accepted offer, the timed transitions it creates, the teleport dispatches - passes validation in the
    state it is applied in. Validity holds where a transition is created (SMP/Offers.v, the specifications of the
    timed transitions, the C01 invariant) and survives the transitions of other components applied before it in the
@@ -8,7 +8,7 @@ From Coq Require Import List ZArith Bool Arith Lia.
 From JSL Require Import Base.Res Base.ListX SM.Types SM.Util SM.Handler SM.Step SM.Middleware SM.Inv
   SMP.ListLemmas SMP.Frame SMP.WF SMP.Preserve SMP.StepInv SMP.Clock SMP.ClockStep SMP.ClockMain SMP.Post SMP.PostApply
   SMP.LiftSide SMP.FeasView SMP.Feasible SMP.FeasSound SMP.Agv SMP.OutputDone SMP.Offers SMP.Unique SMP.Reflect
-  SMP.Prov SMP.LiftProv SMP.ProvBatch SMP.Durations SMP.Travel SMP.OffersValid.
+  SMP.Prov SMP.LiftProv SMP.ProvBatch SMP.Claims SMP.Durations SMP.Travel SMP.OffersValid SMP.Hold SMP.Deliver.
 Import ListNotations.
 Close Scope Z_scope.
 
@@ -21,20 +21,23 @@ Definition inside_fact (x : state) (tr : transition) : Prop :=
   forall m, tr_comp tr = CM m -> (tr_new tr = NM MWorking \/ tr_new tr = NM MOutage) ->
   exists j, tr_job tr = Some j /\ jloc x j = Some (BIn m).
 
+(* an IDLE -> SETUP transition of machine m names a job lying in the pre-buffer of m *)
+Definition pre_fact (x : state) (tr : transition) : Prop :=
+  forall m, tr_comp tr = CM m -> tr_new tr = NM MSetup -> exists j, tr_job tr = Some j /\ jloc x j = Some (BPre m).
+
 Section NF.
 Variable sigma : oracle.
 Variable i : inst.
 Hypothesis Hnn : inst_nonneg_b i = true.
-Hypothesis Hpre : flex_pre_b i = true.
 
-(* the phase pairs a valid machine transition other than IDLE -> SETUP can have *)
+(* the phase pairs a valid machine transition can have *)
 Lemma valid_pairs x m ms tr :
-  is_machine_transition_valid x m ms tr = Ok true -> tr_new tr <> NM MSetup -> (exists s, tr_new tr = NM s) ->
+  is_machine_transition_valid x m ms tr = Ok true -> (exists s, tr_new tr = NM s) ->
   (m_st ms = MSetup /\ tr_new tr = NM MWorking) \/ (m_st ms = MWorking /\ tr_new tr = NM MOutage)
-  \/ (m_st ms = MOutage /\ tr_new tr = NM MIdle).
+  \/ (m_st ms = MOutage /\ tr_new tr = NM MIdle) \/ (m_st ms = MIdle /\ tr_new tr = NM MSetup).
 Proof.
-  unfold is_machine_transition_valid. intros H Hn [s0 Hs].
-  destruct (m_st ms) eqn:Es; destruct (tr_new tr) as [[]|[]] eqn:En; simpl in H; try discriminate; try congruence; auto.
+  unfold is_machine_transition_valid. intros H [s0 Hs].
+  destruct (m_st ms) eqn:Es; destruct (tr_new tr) as [[]|[]] eqn:En; simpl in H; try discriminate; try congruence; auto 6.
 Qed.
 
 Lemma jops_get_job x x' j : jops x' j = jops x j ->
@@ -52,10 +55,10 @@ Qed.
 
 Theorem valid_stable x tr0 x' tr :
   WFS i x -> WFS i x' -> apply_transition sigma i x tr0 = Ok x' -> tr_comp tr0 <> tr_comp tr ->
-  inside_fact x tr0 -> inside_fact x tr -> tr_new tr <> NM MSetup -> machine_kind tr ->
+  inside_fact x tr0 -> inside_fact x tr -> pre_fact x tr -> machine_kind tr ->
   is_transition_valid x tr = Ok true -> is_transition_valid x' tr = Ok true.
 Proof.
-  intros W W' H Hne If0 If Hns Hmk Hv. unfold is_transition_valid in *.
+  intros W W' H Hne If0 If Pf Hmk Hv. unfold is_transition_valid in *.
   destruct (tr_comp tr) as [m|t|n] eqn:Hc.
   - destruct (nth_error (s_machs x) m) as [ms|] eqn:Hms; [|discriminate].
     (* the machine's phase is untouched *)
@@ -68,31 +71,36 @@ Proof.
         rewrite (mrec_of _ _ _ Hms) in G. congruence.
       - unfold apply_transition in H. rewrite Hc0 in H. destruct (nth_error (s_bufs x) n0); discriminate. }
     destruct Hrec as [ms' [Hms' Est]]. rewrite Hms'.
-    destruct (valid_pairs _ _ _ _ Hv Hns (Hmk m Hc)) as [[Es En]|[[Es En]|[Es En]]]; unfold is_machine_transition_valid in *; rewrite Est, Es, En in *; simpl in *; auto.
-    (* SETUP -> WORKING: the job check reads the records of the job inside this machine *)
-    destruct (If m Hc (or_introl En)) as [j [Hj Hloc]]. rewrite Hj in *.
-    rewrite (job_check_ext x x' j m); [exact Hv|].
-    destruct (tr_comp tr0) as [m0|t0|n0] eqn:Hc0.
-    + destruct (nth_error (s_machs x) m0) as [ms0|] eqn:Hms0; [|unfold apply_transition in H; rewrite Hc0, Hms0 in H; discriminate].
-      assert (Hm0 : m0 <> m) by congruence.
-      destruct (machine_tr_jops_other sigma i _ _ _ _ _ j H Hc0 Hms0) as [E|[[Hk E]|[Hk E]]]; auto; exfalso.
-      * (* tr0 names j: j would lie in front of or inside m0 *)
-        destruct (apply_machine sigma i _ _ _ _ _ Hc0 Hms0 H) as [[_ [En0 C]]|[[_ [En0 C]]|[[_ [En0 C]]|[_ [En0 C]]]]].
-        -- destruct (idle_setup_guard sigma i _ _ _ _ _ C) as [j0 [Hj0 Hin]]. rewrite E in Hj0. inversion Hj0; subst j0.
-           assert (G : get_buf x (BPre m0) = Some (m_pre ms0)) by (simpl; rewrite Hms0; reflexivity).
-           pose proof (stored_loc i _ _ _ _ W G Hin) as Q0. rewrite Hloc in Q0. discriminate.
-        -- destruct (post_setup_working sigma i _ _ _ _ _ Hms0 C) as [j0 [jb0 [k0 [oc0 [d0 [Hj0 [_ [_ [_ [_ [_ [_ [_ Hmem]]]]]]]]]]]]].
-           rewrite E in Hj0. inversion Hj0; subst j0. apply mem_nat_In in Hmem.
-           assert (G : get_buf x (BIn m0) = Some (m_in ms0)) by (simpl; rewrite Hms0; reflexivity).
-           pose proof (stored_loc i _ _ _ _ W G Hmem) as Q0. rewrite Hloc in Q0. inversion Q0. congruence.
-        -- destruct (If0 m0 Hc0 (or_intror En0)) as [j0 [Hj0 Hl0]]. rewrite E in Hj0. inversion Hj0; subst j0.
-           rewrite Hloc in Hl0. inversion Hl0. congruence.
-        -- congruence.
-      * assert (Hin : In j (b_store (m_in ms0))) by (destruct (b_store (m_in ms0)); simpl in E; inversion E; left; reflexivity).
-        assert (G : get_buf x (BIn m0) = Some (m_in ms0)) by (simpl; rewrite Hms0; reflexivity).
-        pose proof (stored_loc i _ _ _ _ W G Hin) as Q0. rewrite Hloc in Q0. inversion Q0. congruence.
-    + destruct (transport_tr_frame sigma i _ _ _ _ H Hc0) as [A1 _]. apply A1.
-    + unfold apply_transition in H. rewrite Hc0 in H. destruct (nth_error (s_bufs x) n0); discriminate.
+    (* the records of a job lying in or in front of this machine are untouched by another component *)
+    assert (Keep : forall j L, jloc x j = Some L -> (L = BIn m \/ L = BPre m) -> jops x' j = jops x j).
+    { intros j L Hloc HL.
+      destruct (tr_comp tr0) as [m0|t0|n0] eqn:Hc0.
+      + destruct (nth_error (s_machs x) m0) as [ms0|] eqn:Hms0; [|unfold apply_transition in H; rewrite Hc0, Hms0 in H; discriminate].
+        assert (Hm0 : m0 <> m) by congruence.
+        destruct (machine_tr_jops_other sigma i _ _ _ _ _ j H Hc0 Hms0) as [E|[[Hk E]|[Hk E]]]; auto; exfalso.
+        * destruct (apply_machine sigma i _ _ _ _ _ Hc0 Hms0 H) as [[_ [En0 C]]|[[_ [En0 C]]|[[_ [En0 C]]|[_ [En0 C]]]]].
+          -- destruct (idle_setup_guard sigma i _ _ _ _ _ C) as [j0 [Hj0 Hin]]. rewrite E in Hj0. inversion Hj0; subst j0.
+             assert (G : get_buf x (BPre m0) = Some (m_pre ms0)) by (simpl; rewrite Hms0; reflexivity).
+             pose proof (stored_loc i _ _ _ _ W G Hin) as Q0. rewrite Hloc in Q0. destruct HL as [-> | ->]; inversion Q0; congruence.
+          -- destruct (post_setup_working sigma i _ _ _ _ _ Hms0 C) as [j0 [jb0 [k0 [oc0 [d0 [Hj0 [_ [_ [_ [_ [_ [_ [_ Hmem]]]]]]]]]]]]].
+             rewrite E in Hj0. inversion Hj0; subst j0. apply mem_nat_In in Hmem.
+             assert (G : get_buf x (BIn m0) = Some (m_in ms0)) by (simpl; rewrite Hms0; reflexivity).
+             pose proof (stored_loc i _ _ _ _ W G Hmem) as Q0. rewrite Hloc in Q0. destruct HL as [-> | ->]; inversion Q0; congruence.
+          -- destruct (If0 m0 Hc0 (or_intror En0)) as [j0 [Hj0 Hl0]]. rewrite E in Hj0. inversion Hj0; subst j0.
+             rewrite Hloc in Hl0. destruct HL as [-> | ->]; inversion Hl0; congruence.
+          -- congruence.
+        * assert (Hin : In j (b_store (m_in ms0))) by (destruct (b_store (m_in ms0)); simpl in E; inversion E; left; reflexivity).
+          assert (G : get_buf x (BIn m0) = Some (m_in ms0)) by (simpl; rewrite Hms0; reflexivity).
+          pose proof (stored_loc i _ _ _ _ W G Hin) as Q0. rewrite Hloc in Q0. destruct HL as [-> | ->]; inversion Q0; congruence.
+      + destruct (transport_tr_frame sigma i _ _ _ _ H Hc0) as [A1 _]. apply A1.
+      + unfold apply_transition in H. rewrite Hc0 in H. destruct (nth_error (s_bufs x) n0); discriminate. }
+    destruct (valid_pairs _ _ _ _ Hv (Hmk m Hc)) as [[Es En]|[[Es En]|[[Es En]|[Es En]]]]; unfold is_machine_transition_valid in *; rewrite Est, Es, En in *; simpl in *; auto.
+    + (* SETUP -> WORKING: the job check reads the records of the job inside this machine *)
+      destruct (If m Hc (or_introl En)) as [j [Hj Hloc]]. rewrite Hj in *.
+      rewrite (job_check_ext x x' j m); [exact Hv|]. apply (Keep j (BIn m)); auto.
+    + (* IDLE -> SETUP: ... of the job in front of it *)
+      destruct (Pf m Hc En) as [j [Hj Hloc]]. rewrite Hj in *.
+      rewrite (job_check_ext x x' j m); [exact Hv|]. apply (Keep j (BPre m)); auto.
   - pose proof (apply_tc_other sigma i _ _ _ t H ltac:(congruence)) as E. unfold tc in E.
     destruct (nth_error (s_trans x) t) as [ts|] eqn:Hts; [|discriminate].
     destruct (nth_error (s_trans x') t) as [ts'|] eqn:Hts'; [|discriminate]. simpl in E. inversion E as [[E1 E2 E3]]. rewrite E1. exact Hv.
@@ -101,10 +109,10 @@ Qed.
 
 (* ---------- the batch invariant ---------- *)
 Definition vfacts (x : state) (tr : transition) : Prop :=
-  is_transition_valid x tr = Ok true /\ inside_fact x tr /\ machine_kind tr.
+  is_transition_valid x tr = Ok true /\ inside_fact x tr /\ pre_fact x tr /\ machine_kind tr.
 
 Definition Q7 (L : list transition) (x : state) : Prop :=
-  Q L x /\ NoDup (comps L) /\ (forall tr, In tr L -> vfacts x tr) /\ (forall tr, In tr (tl L) -> tr_new tr <> NM MSetup).
+  Q8 L x /\ NoDup (comps L) /\ (forall tr, In tr L -> vfacts x tr).
 
 Lemma inside_fact_step x tr0 R x' tr1 :
   WFS i x -> Q (tr0 :: R) x -> apply_transition sigma i x tr0 = Ok x' -> tr_comp tr0 <> tr_comp tr1 ->
@@ -119,42 +127,58 @@ Proof.
     destruct Hlf as [[L [HL [O1 _]]]|[t0 [HL _]]]; rewrite Hloc in HL; inversion HL; subst. apply (O1 m); reflexivity.
 Qed.
 
-Lemma Q7_step x tr0 R x' :
-  WFS i x -> DEPI i x -> WFS i x' -> Q7 (tr0 :: R) x -> apply_transition sigma i x tr0 = Ok x' -> Q7 R x'.
+Lemma pre_fact_step x tr0 R x' tr1 :
+  WFS i x -> Q (tr0 :: R) x -> apply_transition sigma i x tr0 = Ok x' -> tr_comp tr0 <> tr_comp tr1 ->
+  pre_fact x tr1 -> pre_fact x' tr1.
 Proof.
-  intros W Dp W' [HQ [ND [HV HT]]] H. split; [exact (Q_step sigma i x tr0 R x' W Dp HQ H)|]. simpl in ND. inversion ND as [|? ? Hnin ND']; subst.
-  split; [exact ND'|]. split.
-  - intros tr Hin. destruct (HV tr (or_intror Hin)) as [V [If Mk]]. destruct (HV tr0 (or_introl eq_refl)) as [_ [If0 _]].
-    assert (Hne : tr_comp tr0 <> tr_comp tr) by (intros E; apply Hnin; rewrite E; apply in_map; exact Hin).
-    split; [|split; [exact (inside_fact_step x tr0 R x' tr W HQ H Hne If)|exact Mk]].
-    apply (valid_stable x tr0 x' tr W W' H Hne If0 If); [apply HT; simpl; exact Hin|exact Mk|exact V].
-  - intros tr Hin. apply HT. simpl. destruct R; [destruct Hin|right; exact Hin].
+  intros W [_ [HP _]] H Hne Hf m Hc1 Hk. destruct (Hf m Hc1 Hk) as [j [Hj Hloc]]. exists j. split; auto.
+  destruct (apply_loc_eff sigma i _ _ _ H j) as [Same|[A [B0 [a [Ha [Hina [HB Hkind]]]]]]]; [rewrite Same; exact Hloc|].
+  exfalso. pose proof (stored_loc i _ _ _ _ W Ha Hina) as HA. rewrite Hloc in HA. inversion HA; subst A.
+  destruct Hkind as [[m0 [Hc0 [[E _]|[E _]]]]|[[t1 [Hc0 [Hn1 [Hj1 [_ [_ Hna]]]]]]|[t1 [_ [_ E]]]]]; try discriminate.
+  - inversion E; subst m0. apply Hne. congruence.
+  - destruct (HP tr0 (or_introl eq_refl) Hn1) as [t2 [j2 [oc2 [_ [Hj2 [_ Hlf]]]]]]. rewrite Hj1 in Hj2. inversion Hj2; subst j2.
+    destruct Hlf as [[L [HL [_ [O2 _]]]]|[t0 [HL _]]]; rewrite Hloc in HL; inversion HL; subst. apply (O2 m); reflexivity.
+Qed.
+
+Lemma Q7_step x tr0 R x' :
+  NO x -> J8 i x -> Q7 (tr0 :: R) x -> apply_transition sigma i x tr0 = Ok x' -> J8 i x' /\ Q7 R x'.
+Proof.
+  intros N Hj [HQ8 [ND HV]] H.
+  destruct (HV tr0 (or_introl eq_refl)) as [V0 [If0 _]].
+  destruct (J8_apply sigma i Hnn _ _ _ _ N Hj HQ8 V0 H) as [Hj' [HQ8' _]]. split; auto.
+  pose proof Hj as [[[W _] _] _]. pose proof Hj' as [[[W' _] _] _]. destruct HQ8 as [HQ _].
+  split; [exact HQ8'|]. simpl in ND. inversion ND as [|? ? Hnin ND']; subst. split; [exact ND'|].
+  intros tr Hin. destruct (HV tr (or_intror Hin)) as [V [If [Pf Mk]]].
+  assert (Hne : tr_comp tr0 <> tr_comp tr) by (intros E; apply Hnin; rewrite E; apply in_map; exact Hin).
+  split; [exact (valid_stable x tr0 x' tr W W' H Hne If0 If Pf Mk V)|].
+  split; [exact (inside_fact_step x tr0 R x' tr W HQ H Hne If)|]. split; [exact (pre_fact_step x tr0 R x' tr W HQ H Hne Pf)|exact Mk].
 Qed.
 
 (* ---------- validity where transitions are created ---------- *)
-Lemma timed_machine_no_setup now m ms tr mc :
-  nth_error (i_machs i) m = Some mc -> timed_machine i now m ms = Ok (Some tr) -> tr_new tr <> NM MSetup.
-Proof.
-  intros Hmc H. destruct (timed_machine_spec i _ _ _ _ H) as [[z [j [_ [_ [_ [_ [_ Hs]]]]]]]|[c [j [_ [Hc [Hn _]]]]]].
-  - destruct Hs as [[_ ->]|[[_ ->]|[_ ->]]]; discriminate.
-  - exfalso. simpl in Hc. rewrite Hmc in Hc. simpl in Hc. inversion Hc; subst c.
-    unfold flex_pre_b in Hpre. pose proof (forallb_nth _ _ _ _ Hpre Hmc) as Hf. simpl in Hf.
-    unfold get_next_job_from_buffer in Hn. destruct (b_store (m_pre ms)); [discriminate|]. destruct (bc_type (mc_pre mc)); discriminate.
-Qed.
-
 Lemma valid_timed_machine x m ms tr mc :
-  WFS i x -> FE i x -> nth_error (s_machs x) m = Some ms -> nth_error (i_machs i) m = Some mc ->
-  timed_machine i (s_now x) m ms = Ok (Some tr) -> vfacts x tr /\ tr_new tr <> NM MSetup /\ tr_comp tr = CM m.
+  WFS i x -> FE i x -> PRE x -> nth_error (s_machs x) m = Some ms -> nth_error (i_machs i) m = Some mc ->
+  timed_machine i (s_now x) m ms = Ok (Some tr) -> vfacts x tr /\ tr_comp tr = CM m.
 Proof.
-  intros W F Hms Hmc H. pose proof (timed_machine_no_setup _ _ _ _ _ Hmc H) as Hns.
-  destruct (timed_machine_spec i _ _ _ _ H) as [[z [j [Ho [Hz [Hhd [Hc [Hj Hs]]]]]]]|[c [j [_ [_ [_ E]]]]]]; [|subst tr; simpl in Hns; congruence].
+  intros W F P Hms Hmc H.
+  destruct (timed_machine_spec i _ _ _ _ H) as [[z [j [Ho [Hz [Hhd [Hc [Hj Hs]]]]]]]|[c [j [Hidle [Hcfg [Hnext E]]]]]].
+  2:{ (* the machine starts by itself: the job its pre-buffer releases next has its next operation here (PRE) *)
+    subst tr. simpl. split; [|reflexivity].
+    assert (Hin : In j (b_store (m_pre ms))) by (eapply next_in; eauto).
+    assert (Hloc : jloc x j = Some (BPre m)) by (eapply (stored_loc i); eauto; simpl; rewrite Hms; reflexivity).
+    destruct (nth_error (s_jobs x) j) as [jb|] eqn:Hjb; [|unfold jloc in Hloc; rewrite Hjb in Hloc; discriminate].
+    destruct (P j (j_ops jb) m (jops_of _ _ _ Hjb) Hloc) as [k [o [Hk [Ho' Hm]]]].
+    split; [|split; [|split]].
+    - unfold is_transition_valid. simpl. rewrite Hms. unfold is_machine_transition_valid. rewrite Hidle. simpl.
+      unfold get_job. rewrite Hjb. simpl. rewrite first_not_done_nd, Hk. simpl. rewrite Ho'. simpl. rewrite Hm, Nat.eqb_refl. reflexivity.
+    - intros m0 _ [Hk0|Hk0]; simpl in Hk0; discriminate.
+    - intros m0 Hc0 _. simpl in Hc0. inversion Hc0; subst m0. exists j. auto.
+    - intros m0 _. simpl. eauto. }
   assert (Hin : In j (b_store (m_in ms))) by (destruct (b_store (m_in ms)); simpl in Hhd; inversion Hhd; left; reflexivity).
   assert (Hloc : jloc x j = Some (BIn m)) by (eapply (stored_loc i); eauto; simpl; rewrite Hms; reflexivity).
-  split; [|split; auto]. split; [|split].
+  split; [|auto]. split; [|split; [|split]].
   - unfold is_transition_valid. rewrite Hc, Hms. unfold is_machine_transition_valid.
     destruct Hs as [[Es En]|[[Es En]|[Es En]]]; rewrite Es, En; simpl; auto.
-    (* SETUP -> WORKING: the job inside has its first not-done operation on this machine *)
-    rewrite Hj. destruct (busy_machine_job i x m ms F Hms ltac:(congruence)) as [j1 [jb1 [k1 [o1 [B1 [B2 [B3 [B4 [B5 [P [Q1 Q2]]]]]]]]]]].
+    rewrite Hj. destruct (busy_machine_job i x m ms F Hms ltac:(congruence)) as [j1 [jb1 [k1 [o1 [B1 [B2 [B3 [B4 [B5 [P0 [Q1 Q2]]]]]]]]]]].
     rewrite B1 in Hin. destruct Hin as [<-|[]]. unfold get_job. rewrite B2. simpl.
     destruct (first_not_done jb1) as [k|] eqn:Ek.
     + rewrite (Q1 _ eq_refl) in *. simpl. rewrite B3. simpl. rewrite B5, Nat.eqb_refl. reflexivity.
@@ -164,38 +188,39 @@ Proof.
       simpl in Ek. destruct (negb (is_ostate ODone h)) eqn:Eh; [discriminate|]. destruct (find_idx _ r) eqn:Er; [discriminate|].
       destruct k1; simpl in B3; [inversion B3; subst; congruence|eapply IH; eauto].
   - intros m0 Hc0 Hk. rewrite Hc in Hc0. inversion Hc0; subst m0. exists j. auto.
+  - intros m0 _ En. destruct Hs as [[_ E]|[[_ E]|[_ E]]]; rewrite E in En; discriminate.
   - intros m0 _. destruct Hs as [[_ ->]|[[_ ->]|[_ ->]]]; eauto.
 Qed.
 
 Lemma valid_timed_transport x t ts tr :
   DEPI i x -> nth_error (s_trans x) t = Some ts -> timed_transport i x t ts = Ok [tr] ->
-  vfacts x tr /\ tr_new tr <> NM MSetup /\ tr_comp tr = CT t /\ t_st ts <> TIdle.
+  vfacts x tr /\ tr_comp tr = CT t /\ t_st ts <> TIdle.
 Proof.
   intros Dp Hts H. unfold timed_transport in H. destruct (t_occ ts) as [|z|b k d] eqn:Eo; [discriminate| |].
-  2:{ (* a re-issued dependency: the AGV's own -> WAITING / -> TRANSIT transition, the AGV waits at the pickup point *)
-    match type of H with bind ?e _ = _ => destruct e as [r0|] eqn:Er; simpl in H; [|discriminate] end.
+  2:{ match type of H with bind ?e _ = _ => destruct e as [r0|] eqn:Er; simpl in H; [|discriminate] end.
     destruct r0; inversion H; subst tr; clear H.
     pose proof (tc_of _ _ _ Hts) as Htc. rewrite Eo in Htc.
     destruct (Dp _ _ _ _ _ _ Htc) as [Est [j [m [ms [mc [_ [_ [_ [_ [Hcd [_ [Hk _]]]]]]]]]]]].
-    split; [|split; [destruct Hk as [-> | ->]; discriminate|split; [exact Hcd|rewrite Est; discriminate]]].
-    split; [|split].
+    split; [|split; [exact Hcd|rewrite Est; discriminate]].
+    split; [|split; [|split]].
     - unfold is_transition_valid. rewrite Hcd, Hts, Est. destruct Hk as [-> | ->]; reflexivity.
+    - intros m0 Hc0. rewrite Hcd in Hc0. discriminate.
     - intros m0 Hc0. rewrite Hcd in Hc0. discriminate.
     - intros m0 Hc0. rewrite Hcd in Hc0. discriminate. }
   destruct (z <=? s_now x)%Z; [|discriminate].
   match type of H with bind ?e _ = _ => destruct e as [o|] eqn:Ec; simpl in H; [|discriminate] end.
   destruct o as [tr0|]; [|discriminate]. inversion H; subst tr0; clear H.
-  assert (G : tr_comp tr = CT t /\ t_st ts <> TIdle /\ is_valid_transition transport_table (NT (t_st ts)) (tr_new tr) = true
-              /\ exists s, tr_new tr = NT s).
+  assert (G : tr_comp tr = CT t /\ t_st ts <> TIdle /\ is_valid_transition transport_table (NT (t_st ts)) (tr_new tr) = true).
   { destruct (t_st ts) eqn:Es; try discriminate.
     - unfold create_idle_to_pick in Ec. rewrite Es in Ec. inv_all Ec; inversion Ec; subst; simpl; repeat split; eauto; discriminate.
     - unfold create_pickup_to_drop in Ec. destruct (b_store (t_buf ts)) as [|j0 [|]]; try discriminate.
       inv_all Ec. inversion Ec; subst; simpl; repeat split; eauto; discriminate.
     - inversion Ec; subst; simpl; repeat split; eauto; discriminate.
     - unfold create_idle_to_pick in Ec. rewrite Es in Ec. inv_all Ec; inversion Ec; subst; simpl; repeat split; eauto; discriminate. }
-  destruct G as [Hc [Hni [Hv [s0 Hs]]]]. split; [|split; [rewrite Hs; discriminate|split; auto]].
-  split; [|split].
+  destruct G as [Hc [Hni Hv]]. split; [|split; auto].
+  split; [|split; [|split]].
   - unfold is_transition_valid. rewrite Hc, Hts, Hv. reflexivity.
+  - intros m Hc0. rewrite Hc in Hc0. discriminate.
   - intros m Hc0. rewrite Hc in Hc0. discriminate.
   - intros m Hc0. rewrite Hc in Hc0. discriminate.
 Qed.
@@ -208,71 +233,93 @@ Proof.
   rewrite E in Hy. destruct (tr_comp h) as [a|a|a]; simpl in Hy; rewrite Nat.eqb_refl in Hy; discriminate.
 Qed.
 
-Lemma offer_vfacts x offers tr :
-  FE i x -> get_possible_transitions i x = Ok offers -> In tr offers -> vfacts x tr.
+(* a machine offer names a job waiting in front of that machine *)
+Lemma machine_offer_pre x offers m j :
+  WFS i x -> FE i x -> get_possible_transitions i x = Ok offers -> In (mkTr (CM m) (NM MSetup) (Some j)) offers ->
+  jloc x j = Some (BPre m).
 Proof.
-  intros F H Hin. split; [eapply (offers_are_valid i); eauto; apply (FE_no_transport_ops i); auto|].
-  destruct (offers_shape i _ _ _ H Hin) as [[m [j ->]]|[t [j ->]]]; split.
+  intros W F H Hin. unfold get_possible_transitions in H.
+  destruct (filterM _ _) as [pj|] eqn:E1 in H; simpl in H; [|discriminate].
+  destruct (get_possible_transport_transition i x) as [pt|] eqn:E2; simpl in H; [|discriminate].
+  destruct (mapM _ pj) as [mt|] eqn:E3 in H; simpl in H; [|discriminate].
+  inversion H; subst; clear H. apply in_app_iff in Hin. destruct Hin as [Hin|Hin].
+  - destruct (mapM_in' _ _ _ _ E3 Hin) as [[j0 jb] [Hp Hf]]. simpl in Hf.
+    destruct (first_idle jb) as [k|] eqn:Ek; simpl in Hf; [|discriminate].
+    destruct (nth_error (j_ops jb) k) as [o|] eqn:Eo; simpl in Hf; [|discriminate]. inversion Hf; subst.
+    destruct (filterM_in _ _ _ _ E1 Hp) as [Hi Hposs]. apply in_indexed0 in Hi.
+    destruct (machine_offers_spec i x jb j Hposs Hi) as [k' [o' [ms [Hk' [Ho' [_ [_ [Hl Hr]]]]]]]].
+    assert (Hnb : forall m0, j_loc jb <> BIn m0) by (intros m0 E; rewrite E in Hl; discriminate).
+    pose proof (not_running_first i x j jb W F Hi Hnb) as Efn. rewrite <- first_not_done_nd in Efn.
+    unfold first_idle in Ek. rewrite <- Efn, Hk' in Ek. inversion Ek; subst k'. rewrite Eo in Ho'. inversion Ho'; subst o'.
+    rewrite (jloc_of _ _ _ Hi), Hl. reflexivity.
+  - exfalso. destruct (transport_offers_spec i _ _ _ E2 Hin) as [t [ts [j1 [jb [E _]]]]]. discriminate.
+Qed.
+
+Lemma offer_vfacts x offers tr :
+  WFS i x -> FE i x -> get_possible_transitions i x = Ok offers -> In tr offers -> vfacts x tr.
+Proof.
+  intros W F H Hin. split; [eapply (offers_are_valid i); eauto; apply (FE_no_transport_ops i); auto|].
+  destruct (offers_shape i _ _ _ H Hin) as [[m [j E]]|[t [j E]]]; subst tr; split; [|split| |split].
   - intros m0 _ [Hk|Hk]; simpl in Hk; discriminate.
+  - intros m0 Hc _. simpl in Hc. inversion Hc; subst m0. exists j. split; auto. eapply machine_offer_pre; eauto.
   - intros m0 _. simpl. eauto.
+  - intros m0 Hc. simpl in Hc. discriminate.
   - intros m0 Hc. simpl in Hc. discriminate.
   - intros m0 Hc. simpl in Hc. discriminate.
 Qed.
 
 Definition tele_facts (x : state) (tr : transition) : Prop :=
-  vfacts x tr /\ tr_new tr <> NM MSetup /\ exists t ts, tr_comp tr = CT t /\ nth_error (s_trans x) t = Some ts /\ t_st ts = TIdle.
+  vfacts x tr /\ exists t ts, tr_comp tr = CT t /\ nth_error (s_trans x) t = Some ts /\ t_st ts = TIdle.
 
 Theorem Q7_created_gen x timed tele :
-  J i x -> BI x -> create_timed_transitions i x = Ok timed -> Forall (fun tr => is_tworking tr = true) tele ->
+  J8 i x -> Q8 (timed ++ tele) x -> create_timed_transitions i x = Ok timed ->
   NoDup (comps tele) -> (forall tr, In tr tele -> tele_facts x tr) -> Q7 (timed ++ tele) x.
 Proof.
-  intros Hj Hb Ht Tw NDt FT. pose proof Hj as [W [[F _] Dn]].
-  split; [eapply (Q_created i); eauto|].
+  intros Hj8 HQ8 Ht NDt FT. pose proof Hj8 as [[Hj _] [_ [P _]]]. pose proof Hj as [W [[F _] Dn]].
+  split; [exact HQ8|].
   unfold create_timed_transitions in Ht.
   destruct (create_timed_machine_transitions i x) as [a|] eqn:Ea; simpl in Ht; [|discriminate].
   destruct (create_timed_transport_transitions i x) as [b|] eqn:Eb; simpl in Ht; [|discriminate].
   inversion Ht; subst; clear Ht.
   destruct (timed_machines_comps i _ _ _ _ Ea) as [A1 A2].
   pose proof (timed_transport_nodup i x _ Hj Eb) as B2.
-  assert (FA : forall tr, In tr a -> vfacts x tr /\ tr_new tr <> NM MSetup /\ exists m, tr_comp tr = CM m).
+  assert (FA : forall tr, In tr a -> vfacts x tr /\ exists m, tr_comp tr = CM m).
   { intros tr Hin. destruct (timed_machines_in i _ _ _ _ _ Ea Hin) as [k [ms [Hms Htm]]]. simpl in Htm.
     assert (Hlt : k < length (i_machs i)) by (rewrite <- (ws_lm _ _ W); eapply nth_error_lt; eauto).
     destruct (nth_error (i_machs i) k) as [mc|] eqn:Emc; [|apply nth_error_None in Emc; lia].
-    destruct (valid_timed_machine x k ms tr mc W F Hms Emc Htm) as [V [Hn Hc]]. eauto. }
-  assert (FB : forall tr, In tr b -> vfacts x tr /\ tr_new tr <> NM MSetup /\ exists t ts, tr_comp tr = CT t /\ nth_error (s_trans x) t = Some ts /\ t_st ts <> TIdle).
+    destruct (valid_timed_machine x k ms tr mc W F P Hms Emc Htm) as [V Hc]. eauto. }
+  assert (FB : forall tr, In tr b -> vfacts x tr /\ exists t ts, tr_comp tr = CT t /\ nth_error (s_trans x) t = Some ts /\ t_st ts <> TIdle).
   { intros tr Hin. destruct (timed_transport_slot i x _ _ Hj Eb Hin) as [k [ts [Hts [Htt [Hc _]]]]].
-    destruct (valid_timed_transport x k ts tr Dn Hts Htt) as [V [Hn [Hc' Hni]]]. eauto 8. }
-  split; [|split].
+    destruct (valid_timed_transport x k ts tr Dn Hts Htt) as [V [Hc' Hni]]. eauto 8. }
+  split.
   - unfold comps. rewrite map_app. apply NoDup_app.
     + rewrite map_app. apply NoDup_app; auto. intros c Hc1 Hc2. apply in_map_iff in Hc1, Hc2.
       destruct Hc1 as [t1 [E1 I1]]. destruct Hc2 as [t2 [E2 I2]].
-      destruct (FA _ I1) as [_ [_ [m Hm]]]. destruct (FB _ I2) as [_ [_ [t [ts [Ht _]]]]]. congruence.
+      destruct (FA _ I1) as [_ [m Hm]]. destruct (FB _ I2) as [_ [t [ts [Ht _]]]]. congruence.
     + exact NDt.
     + intros c Hc1 Hc2. apply in_map_iff in Hc1, Hc2. destruct Hc1 as [t1 [E1 I1]]. destruct Hc2 as [t2 [E2 I2]].
-      destruct (FT _ I2) as [_ [_ [t [ts [Ht [Hts Hidle]]]]]]. apply in_app_iff in I1. destruct I1 as [I1|I1].
-      * destruct (FA _ I1) as [_ [_ [m Hm]]]. congruence.
-      * destruct (FB _ I1) as [_ [_ [t' [ts' [Ht' [Hts' Hni]]]]]]. assert (t' = t) by congruence. subst t'.
+      destruct (FT _ I2) as [_ [t [ts [Ht [Hts Hidle]]]]]. apply in_app_iff in I1. destruct I1 as [I1|I1].
+      * destruct (FA _ I1) as [_ [m Hm]]. congruence.
+      * destruct (FB _ I1) as [_ [t' [ts' [Ht' [Hts' Hni]]]]]. assert (t' = t) by congruence. subst t'.
         rewrite Hts in Hts'. inversion Hts'; subst ts'. congruence.
   - intros tr Hin. apply in_app_iff in Hin. destruct Hin as [Hin|Hin]; [apply in_app_iff in Hin; destruct Hin as [Hin|Hin]|].
     + apply (FA _ Hin). + apply (FB _ Hin). + apply (FT _ Hin).
-  - intros tr Hin. assert (Hall : In tr ((a ++ b) ++ tele)) by (destruct ((a ++ b) ++ tele); [destruct Hin|right; exact Hin]).
-    apply in_app_iff in Hall. destruct Hall as [Hall|Hall]; [apply in_app_iff in Hall; destruct Hall as [Hall|Hall]|].
-    + apply (FA _ Hall). + apply (FB _ Hall). + apply (FT _ Hall).
 Qed.
 
 Theorem Q7_created x timed poss tele :
-  J i x -> BI x -> create_timed_transitions i x = Ok timed -> get_possible_transitions i x = Ok poss ->
+  NO x -> J8 i x -> BI x -> create_timed_transitions i x = Ok timed -> get_possible_transitions i x = Ok poss ->
   filter_teleport i x poss = Ok tele -> Q7 (timed ++ tele) x.
 Proof.
-  intros Hj Hb Ht Hp Hf. pose proof Hj as [W [[F _] Dn]].
+  intros N Hj8 Hb Ht Hp Hf. pose proof Hj8 as [[[W [[F _] Dn]] _] _].
   pose proof (tele_tworking i _ _ _ Hp Hf) as Tw. pose proof (tele_sub i _ _ _ Hf) as Hsub.
   apply Q7_created_gen; auto.
+  - eapply Q8_timed; eauto.
   - unfold filter_teleport in Hf.
     match type of Hf with bind ?e _ = _ => destruct e as [tl0|] eqn:Ef; simpl in Hf; [|discriminate] end.
     inversion Hf; subst. apply teleport_pick_comps.
   - intros tr Hin. pose proof (Hsub _ Hin) as Hi. split; [eapply offer_vfacts; eauto|].
     rewrite Forall_forall in Tw. specialize (Tw _ Hin).
-    unfold is_tworking in Tw. destruct (tr_new tr) as [s0|s0] eqn:En; [discriminate|]. split; [discriminate|].
+    unfold is_tworking in Tw. destruct (tr_new tr) as [s0|s0] eqn:En; [discriminate|].
     unfold get_possible_transitions in Hp.
     destruct (filterM _ _) as [pj|] eqn:E1 in Hp; simpl in Hp; [|discriminate].
     destruct (get_possible_transport_transition i x) as [pt|] eqn:E2; simpl in Hp; [|discriminate].
@@ -282,38 +329,45 @@ Proof.
     + destruct (transport_offers_spec i _ _ _ E2 Hi) as [t [ts [j [jb [-> [Hts [Hst _]]]]]]]. simpl. eauto.
 Qed.
 
-Theorem Q7_created0 x timed : J i x -> BI x -> create_timed_transitions i x = Ok timed -> Q7 timed x.
+Theorem Q7_created0 x timed : NO x -> J8 i x -> BI x -> create_timed_transitions i x = Ok timed -> Q7 timed x.
 Proof.
-  intros Hj Hb Ht. rewrite <- (app_nil_r timed). apply Q7_created_gen; auto; [constructor|intros tr []].
+  intros N Hj Hb Ht. rewrite <- (app_nil_r timed). apply Q7_created_gen; auto; [rewrite app_nil_r; eapply Q8_timed0; eauto|constructor|intros tr []].
 Qed.
 
-Lemma Q7_offer x offers o : J i x -> BI x -> create_timed_transitions i x = Ok [] ->
-  get_possible_transitions i x = Ok offers -> In o offers -> Q7 [o] x.
+Definition OK9 (x : state) (tr : transition) : Prop :=
+  OK8 i x tr /\ exists full, get_possible_transitions i x = Ok full /\ In tr full.
+
+Lemma offers_ok9 x offers : get_possible_transitions i x = Ok offers -> Forall (OK9 x) offers.
 Proof.
-  intros Hj Hb Hct H Hin. pose proof Hj as [W [[F _] Dn]].
-  split; [apply (Q_offer i); auto; pose proof (offers_shape' i _ _ H) as Hn; rewrite Forall_forall in Hn; auto|].
-  split; [simpl; constructor; [intros []|constructor]|]. split.
-  - intros tr [<-|[]]. eapply offer_vfacts; eauto.
-  - intros tr [].
+  intros H. pose proof (offers_ok8 i x offers H) as H8. rewrite Forall_forall in *. intros tr Hin. split; eauto.
+Qed.
+
+Lemma Q9_offer x o : J8 i x -> BI x -> create_timed_transitions i x = Ok [] -> OK9 x o -> Q8 [o] x.
+Proof. intros Hj Hb Hct [H8 _]. eapply Q8_offer; eauto. Qed.
+
+Lemma Q7_offer x o : J8 i x -> BI x -> create_timed_transitions i x = Ok [] -> OK9 x o -> Q7 [o] x.
+Proof.
+  intros Hj Hb Hct Ho. pose proof Hj as [[[W [[F _] _]] _] _]. destruct Ho as [H8 [full [Hfull Hin]]].
+  split; [eapply Q8_offer; eauto|].
+  split; [simpl; constructor; [intros []|constructor]|].
+  intros tr [<-|[]]. eapply offer_vfacts; eauto.
 Qed.
 
 (* ---------- nothing is ever skipped ---------- *)
 Lemma process_ns : forall trs x n lg x' n' lg',
-  NO x -> J i x -> Q7 trs x -> process_transitions sigma i trs x n lg = Ok (x', n', lg') -> n' = n /\ NO x' /\ J i x' /\ BI x'.
+  NO x -> J8 i x -> Q7 trs x -> process_transitions sigma i trs x n lg = Ok (x', n', lg') -> n' = n /\ NO x' /\ J8 i x' /\ BI x'.
 Proof.
   induction trs as [|tr r IH]; intros x n lg x' n' lg' N Hj HQ H; simpl in H.
-  - inversion H; subst. split; auto. split; auto. split; auto. destruct HQ as [HQ0 _]. eapply BI_end; eauto.
-  - destruct HQ as [HQ0 [ND [HV HT]]]. destruct (HV tr (or_introl eq_refl)) as [V _]. rewrite V in H. simpl in H.
+  - inversion H; subst. split; auto. split; auto. split; auto. destruct HQ as [HQ0 _]. eapply E8_end; eauto.
+  - pose proof HQ as [HQ0 [ND HV]]. destruct (HV tr (or_introl eq_refl)) as [V _]. rewrite V in H. simpl in H.
     destruct (apply_transition sigma i x tr) as [x1|e] eqn:Ea; simpl in H; [|discriminate].
-    destruct (J_apply sigma i Hnn _ _ _ _ N Hj HQ0 V Ea) as [Hj1 _].
+    destruct (Q7_step x tr r x1 N Hj HQ Ea) as [Hj1 HQ1].
     pose proof (apply_preserves_NO sigma i Hnn _ _ _ N Ea) as N1.
-    destruct Hj as [W [_ Dp]]. pose proof Hj1 as [W1 _].
-    apply (IH x1 n (lg ++ [(tr, x1)]) x' n' lg' N1 Hj1); [|exact H]. apply (Q7_step x tr r x1 W Dp W1); [|exact Ea].
-    split; [exact HQ0|]. split; [exact ND|]. split; [exact HV|exact HT].
+    apply (IH x1 n (lg ++ [(tr, x1)]) x' n' lg' N1 Hj1 HQ1 H).
 Qed.
 
 Lemma loop_ns fuel : forall x0 x timed lg xf lgf,
-  NO x -> J i x -> Q7 timed x -> timed_loop sigma i fuel x0 x timed lg = SFail xf lgf -> False.
+  NO x -> J8 i x -> Q7 timed x -> timed_loop sigma i fuel x0 x timed lg = SFail xf lgf -> False.
 Proof.
   induction fuel as [|f IH]; intros x0 x timed lg xf lgf N Hj HQ H; simpl in H.
   - destruct timed; [|discriminate].
@@ -325,18 +379,18 @@ Proof.
       destruct (jump_to_event i x1) as [tt|e] eqn:Ej; [|discriminate].
       destruct (create_timed_transitions i (set_now x1 tt)) as [timed'|e] eqn:Ec; [|discriminate].
       destruct (jump_to_event_ok i _ _ N1 Ej) as [Hle N2].
-      assert (Hj2 : J i (set_now x1 tt)) by (apply (J_now i); auto).
+      assert (Hj2 : J8 i (set_now x1 tt)) by (apply (J8_now i); auto).
       eapply IH; [exact N2|exact Hj2| |exact H]. apply Q7_created0; auto; apply BI_now; auto.
 Qed.
 
 Theorem step_never_fails fuel x0 trs tm xf lgf :
-  tm <> TMJumpByOne -> NO x0 -> J i x0 -> BI x0 -> (trs <> [] -> Q7 (sorted_by_transport trs) x0) ->
+  tm <> TMJumpByOne -> NO x0 -> J8 i x0 -> BI x0 -> (trs <> [] -> Q7 (sorted_by_transport trs) x0) ->
   step sigma i fuel x0 trs tm = SFail xf lgf -> False.
 Proof.
   intros Htm N Hj Hb0 HQ H. unfold step in H.
   destruct (match trs with [] => Ok (x0, 0, []) | _ :: _ => process_transitions sigma i (sorted_by_transport trs) x0 0 [] end)
     as [[[x1 nerr] lg1]|e] eqn:Ep; [|discriminate].
-  assert (H1 : nerr = 0 /\ NO x1 /\ J i x1 /\ BI x1).
+  assert (H1 : nerr = 0 /\ NO x1 /\ J8 i x1 /\ BI x1).
   { destruct trs as [|o os]; [inversion Ep; subst; auto|]. eapply process_ns; eauto. apply HQ. discriminate. }
   destruct H1 as [En [N1 [Hj1 Hb1]]]. subst nerr. simpl in H.
   destruct (run_time_machine i tm x1) as [t|e] eqn:Et; [|discriminate].
@@ -344,14 +398,14 @@ Proof.
   destruct (get_possible_transitions i (set_now x1 t)) as [poss|e] eqn:Eg; [|discriminate].
   destruct (filter_teleport i (set_now x1 t) poss) as [tele|e] eqn:Ef; [|discriminate].
   destruct (run_tm_ok i tm _ _ Htm N1 Et) as [Hle N2].
-  assert (Hj2 : J i (set_now x1 t)) by (apply (J_now i); auto).
+  assert (Hj2 : J8 i (set_now x1 t)) by (apply (J8_now i); auto).
   eapply loop_ns; [exact N2|exact Hj2| |exact H]. eapply Q7_created; eauto; apply BI_now; auto.
 Qed.
 
 (* the middleware never receives an unsuccessful result *)
 Theorem mw_step_never_fails fuel r m a sto m' :
-  NO (r_x r) -> J i (r_x r) -> BI (r_x r) -> create_timed_transitions i (r_x r) = Ok [] ->
-  Forall (OKV i (r_x r)) (r_offers r) -> mw_step sigma i fuel r m a = MFail sto m' -> False.
+  NO (r_x r) -> J8 i (r_x r) -> BI (r_x r) -> create_timed_transitions i (r_x r) = Ok [] ->
+  Forall (OK9 (r_x r)) (r_offers r) -> mw_step sigma i fuel r m a = MFail sto m' -> False.
 Proof.
   intros N Hj Hb Hct HO H. unfold mw_step in H.
   destruct (r_offers r) as [|o1 rest] eqn:Eo; [discriminate|].
@@ -362,19 +416,19 @@ Proof.
     destruct offers; [destruct (all_in_output i x')|]; discriminate.
   - destruct (step sigma i fuel (r_x r) [o1] TMJumpToEvent) as [x' offers lg'|xf lgf| |] eqn:Es; try discriminate.
     eapply (step_never_fails fuel (r_x r) [o1] TMJumpToEvent); eauto; [discriminate|].
-    intros _. rewrite sorted_single. inversion HO as [|? ? [_ [full [Hfull Hin]]] _]; subst. eapply Q7_offer; eauto.
+    intros _. rewrite sorted_single. inversion HO; subst. eapply Q7_offer; eauto.
 Qed.
 
 Theorem run_never_fails fuel x0 joker0 ta r m a sto m' :
-  clock_b x0 = true -> wfs_b i x0 = true -> fresh2_b i x0 = true -> nodep_b x0 = true ->
+  clock_b x0 = true -> wfs_b i x0 = true -> fresh2_b i x0 = true -> nodep_b x0 = true -> idle_unclaimed_b x0 = true ->
+  pre_ok_b x0 = true ->
   reach sigma i fuel x0 joker0 ta r m -> mw_step sigma i fuel r m a = MFail sto m' -> False.
 Proof.
-  intros C W Fr Dn H Hm. apply NO_iff_clock_b in C.
-  destruct (reach_reachG_E sigma i Hnn (J i) Q side2 (OKV i) BI (J_apply sigma i Hnn) (J_now i) (BI_end i) BI_now (Q_timed i) (Q_timed0 i)
-              (QV_offer i) (offers_okv i) _ _ _ _ _ _ C (J_init i _ W Fr Dn) (BI_init _ Dn) H) as [_ [HO [xq [Nq [Jq [Bq [Hct [E|[E _]]]]]]]]].
+  intros C W Fr Dn Iu Po H Hm. apply NO_iff_clock_b in C.
+  destruct (reach_reachG_E sigma i Hnn (J8 i) Q8 side2 OK9 BI (J8_apply sigma i Hnn) (J8_now i) (E8_end i) BI_now (Q8_timed i) (Q8_timed0 i)
+              Q9_offer offers_ok9 _ _ _ _ _ _ C (J8_init i _ W Fr Dn Iu Po) (BI_init _ Dn) H) as [_ [HO [xq [Nq [Jq [Bq [Hct [E|[E _]]]]]]]]].
   - subst xq. exact (mw_step_never_fails fuel r m a sto m' Nq Jq Bq Hct HO Hm).
   - unfold mw_step in Hm. rewrite E in Hm. discriminate.
 Qed.
-
 
 End NF.
